@@ -309,8 +309,87 @@ def _c16_miri(prop, tier, seed, rundir, merged, env, root, log):
     return {"miri": info, "violations": viol, "distinct_extra": ok_total}
 
 
+def _c16_tsan(prop, tier, seed, rundir, merged, env, root, log):
+    """ThreadSanitizer build (nightly, -Zbuild-std so that std's locks and atomics are instrumented too) of the same harness:
+    the native C16 scenarios are run again as child processes of the instrumented binary; any TSan report is a violation."""
+    import os, subprocess, time, re, random
+    hdir = os.path.join(root, "harness")
+    tdir = os.path.join(root, "target", "tsan")
+    t0 = time.time()
+    benv = dict(env, CARGO_TARGET_DIR=tdir, RUSTFLAGS="-Zsanitizer=thread")
+    b = subprocess.run(["cargo", "+nightly", "build", "-Zbuild-std", "--target", "x86_64-unknown-linux-gnu", "--release", "--offline"],
+                       cwd=hdir, env=benv, stdout=subprocess.PIPE, stderr=subprocess.STDOUT, text=True)
+    exe = os.path.join(tdir, "x86_64-unknown-linux-gnu", "release", "vmon")
+    info = {"build_s": round(time.time() - t0, 1), "runs": 0, "ok": 0, "scenarios": {}}
+    if b.returncode != 0 or not os.path.exists(exe):
+        info["unavailable"] = b.stdout[-600:]
+        merged["inconclusive"]["tsan-unavailable"] = 1
+        merged["counters"]["tsan_runs_ok"] = 0
+        return {"tsan": info}
+    rnd = random.Random(seed * 7919 + (1 if tier == "quick" else 2))
+    scen = ([f"cell{k}" for k in range(12)] + ["isolated", "code", "failing", "iterator", "appends", "reads", "printing"] + [f"readers{k}" for k in range(4)])
+    specs = []
+    reps = 2 if tier == "quick" else 24
+    for r in range(reps):
+        for s in scen:
+            size = rnd.choice([1, 2, 3]) if s == "isolated" else rnd.choice([5, 20, 60]) if s in ("code",) or s.startswith("readers") else rnd.choice([10, 50, 200])
+            specs.append(f"{s}:{rnd.choice([2, 3, 4, 8])}:{size}:{rnd.choice([0, 0, 1, 3])}")
+    tenv = dict(env, TSAN_OPTIONS="halt_on_error=1 exitcode=66 history_size=4")
+    viol, running, todo = [], [], list(specs)
+    limit = time.time() + (600 if tier == "quick" else 3600)
+
+    def finish(spec, p):
+        try:
+            out, err = p.communicate(timeout=max(5, limit - time.time()))
+        except subprocess.TimeoutExpired:
+            p.kill(); p.communicate()
+            merged["inconclusive"]["tsan-run-timeout"] = merged["inconclusive"].get("tsan-run-timeout", 0) + 1
+            return
+        name = spec.split(":")[0].rstrip("0123456789")
+        info["runs"] += 1
+        sc = info["scenarios"].setdefault(name, {"runs": 0, "ok": 0})
+        sc["runs"] += 1
+        m = re.search(r"WARNING: ThreadSanitizer: ([^(\n]+)", err)
+        if m or p.returncode == 66:
+            kind = (m.group(1).strip() if m else "report").replace(" ", "-")
+            frame = re.search(r"#\d+ (simplesl::[^ ]+)", err)
+            idx = err.find("WARNING: ThreadSanitizer")
+            viol.append({"key": f"c16:tsan:{kind}:{name}", "what": f"ThreadSanitizer report in scenario {spec} (first repository frame: {frame.group(1) if frame else '?'}): {err[max(idx, 0):max(idx, 0) + 1500]}", "kind": "c16", "payload": spec})
+        elif "VIOLATION " in out:
+            why = out[out.find("VIOLATION ") + 10:].strip()[:600]
+            cls = "panic" if ("panicked" in why or "poisoned" in why) else "atomicity" if ("atomic" in why or "lost" in why) else "result"
+            viol.append({"key": f"c16:{cls}:{name}", "what": f"scenario {spec} (ThreadSanitizer build): {why}", "kind": "c16", "payload": spec})
+        elif "OK " in out:
+            info["ok"] += 1; sc["ok"] += 1
+        else:
+            k = "tsan-run-no-verdict"
+            merged["inconclusive"][k] = merged["inconclusive"].get(k, 0) + 1
+            info.setdefault("no_verdict_tail", (err or out)[-300:])
+
+    while todo or running:
+        while todo and len(running) < 6:
+            spec = todo.pop(0)
+            running.append((spec, subprocess.Popen([exe, "C16", "--out", "/dev/null", "--opt", f"child={spec}"], cwd=rundir, env=tenv,
+                                                   stdin=subprocess.DEVNULL, stdout=subprocess.PIPE, stderr=subprocess.PIPE, text=True)))
+        spec, p = running.pop(0)
+        finish(spec, p)
+    merged["counters"]["tsan_runs_ok"] = info["ok"]
+    merged["evaluations"] += info["ok"]
+    info["wall_s"] = round(time.time() - t0, 1)
+    return {"tsan": info, "violations": viol, "distinct_extra": info["ok"]}
+
+
+def _c16_post(**kw):
+    a = _c16_miri(**kw) or {}
+    b = _c16_tsan(**kw) or {}
+    out = dict(a); out.update({k: v for k, v in b.items() if k not in ("violations", "distinct_extra")})
+    out["violations"] = a.get("violations", []) + b.get("violations", [])
+    out["distinct_extra"] = a.get("distinct_extra", 0) + b.get("distinct_extra", 0)
+    return out
+
+
 PROPS["C16"] = {
-    "post": _c16_miri,
+    "post": _c16_post,
     "budget": {"quick": 60, "thorough": 600},
     "shards": {"quick": 4, "thorough": 4},
     "rule": "short concurrent runs in child processes (so a stall can be inspected and killed): T in {2,3,4,8,16} threads released together by a barrier, with optional yields injected between interpreter steps (never inside a cell's critical section). "
@@ -318,14 +397,14 @@ PROPS["C16"] = {
             "each update is a bijection (+= 1, -= 1, *= 3, ^= unique bit, |= own bit, &= clear own bit, <<= 1, >>= 1, /= 3 on 3^39, **= 3 on odd values, %= m, = unique value), so atomicity <=> final content is the closed form and the multiset of yielded values is the sequential chain; "
             "(isolated) 15 functions using every lazily initialised helper (map, filter, iterate, type filter, reducers, modules, stdlib) first touched concurrently, results compared with the sequential run; (code) one parsed Code executed from all threads; "
             "(readers) half the threads print a cell that contains itself (through an array, a tuple, a struct or another cell) and a cell nested in a cell while the others assign; (failing) threads increment / apply failing compound assignments (/= 0, %= 0, <<= 64, >>= -1, **= -1) / read one cell: every failure reports its documented error and leaves the cell as it was; (iterator) one `a~` value pulled from all threads: afterwards its cursor stands at the number of pulls; (printing) threads print values that contain a cell while others update it: every text shows a content the cell held; the isolated set also holds functions whose run creates state (default cell of an exhausted `? mut int`, closure counters, iterator positions). A run that makes no progress is inspected with `gdb thread apply all bt`: threads parked in RwLock acquisition = deadlock (violation), otherwise inconclusive. "
-            "Plus Miri (cargo +nightly miri run, several schedule seeds) on miniature versions of the same scenarios: data races, deadlocks, UB in the dependency code actually executed. distinct_nontrivial = distinct (scenario, threads, size, yield, run) executions.",
+            "Plus Miri (cargo +nightly miri run, several schedule seeds) on miniature versions of the same scenarios: data races, deadlocks, UB in the dependency code actually executed. Plus a ThreadSanitizer build of the same harness (nightly, -Zsanitizer=thread -Zbuild-std so std's locks and atomics are instrumented): every scenario is run again as a child of the instrumented binary (46 runs quick, 552 thorough); any ThreadSanitizer report (data race, lock-order inversion) is a violation, and the scenario's own history oracle runs too. distinct_nontrivial = distinct (scenario, threads, size, yield, run) executions.",
     "assumptions": COMMON_ASSUME + ["schedules explored are those the OS scheduler, the injected yields and Miri's seeds produce - a sample, not all interleavings",
                                     "a stall is decided by the thread dump (all blocked in lock acquisition), never by elapsed time alone"],
-    "floors": {"quick": {"runs": 50, "operations": 12500, "shape:assignment_operators": 12, "shape:scenarios": 20, "miri_runs_ok": 4},
-               "thorough": {"runs": 100, "operations": 25000, "shape:assignment_operators": 12, "shape:scenarios": 20, "miri_runs_ok": 4}},
-    "technique": "runtime schedule-stress monitor with per-operation unique-value histories on shared cells, gdb thread dumps for stalls, plus Miri (data-race / deadlock detector) on miniature workloads",
+    "floors": {"quick": {"runs": 50, "operations": 12500, "shape:assignment_operators": 12, "shape:scenarios": 20, "miri_runs_ok": 4, "tsan_runs_ok": 30},
+               "thorough": {"runs": 100, "operations": 25000, "shape:assignment_operators": 12, "shape:scenarios": 20, "miri_runs_ok": 4, "tsan_runs_ok": 300}},
+    "technique": "runtime schedule-stress monitor with per-operation unique-value histories on shared cells, gdb thread dumps for stalls, plus Miri (data-race / deadlock detector) on miniature workloads and ThreadSanitizer (build-std) on the full scenarios",
     "level_text": "Hundreds (quick) to tens of thousands (thorough) of short multi-threaded executions over shared Code, Function and cell values with history checks that are exact for atomicity, plus Miri runs over several schedule seeds. A sample of schedules, not an exhaustive exploration.",
-    "level_note": "cannot enumerate interleavings; Miri covers only miniature workloads (2-3 threads, a few operations)",
+    "level_note": "cannot enumerate interleavings; Miri covers only miniature workloads (2-3 threads, a few operations); ThreadSanitizer sees only races between accesses that actually happen in a run",
     "exhaustive": False,
 }
 
